@@ -106,8 +106,12 @@ def main():
     missed = [r['mutant'] for r in results if not r.get('detected')]
     print('SUMMARY mutants=%d detected=%d missed=%s' % (len(results), len(results) - len(missed), missed))
     if not args:        # only a complete run is recorded
-        with open(os.path.join(HERE, 'selftest', 'sensitivity_last.json'), 'w') as f:
-            json.dump(results, f, indent=1, sort_keys=True)
+        out = os.environ.get('SENSITIVITY_OUT') or os.path.join(HERE, 'selftest', 'sensitivity_last.json')
+        with open(out, 'w') as f:
+            json.dump({'budget_s_per_check': os.environ.get('VERIF_BUDGET_S') or 'tier default',
+                       'workers': os.environ.get('VERIF_WORKERS') or 'default',
+                       'repo_head': sh(['git', '-C', REPO, 'log', '--format=%h', '-1']).stdout.strip(),
+                       'results': results}, f, indent=1, sort_keys=True)
     return 0
 
 
